@@ -7,7 +7,8 @@ from extract import dbschema
 from gen import dbgen
 from props.c12 import workdir, run_both
 
-THEOREMS = ["IgVerif.C13.c13_merge_commutes", "IgVerif.C13.c13_global_union", "IgVerif.C13.c13_fully_defined_wins", "IgVerif.C13.c13_defined_replaces_forward",
+THEOREMS = ["IgVerif.C13.c13_merge_order_independent", "IgVerif.C13.c13_flag_facts", "IgVerif.mergeAll_perm", "IgVerif.orFlag_idem",
+            "IgVerif.C13.c13_merge_commutes", "IgVerif.C13.c13_global_union", "IgVerif.C13.c13_fully_defined_wins", "IgVerif.C13.c13_defined_replaces_forward",
             "IgVerif.C13.c13_module_range", "IgVerif.C13.c13_file_range", "IgVerif.C13.c13_cache_coherent",
             "IgVerif.C13.c13_lookup_reflects_all_loaded", "IgVerif.cacheInv_reachable", "IgVerif.lookup_answer"]
 PARTIAL = [("c13_order_iso (loadAll (perm dbs) is isomorphic to loadAll dbs)",
